@@ -429,3 +429,27 @@ func (b *Uint32) CompareAndSwap(o, n uint32) bool {
 	}
 	return false
 }
+
+// ---- function-form atomics on plain variables (sync/atomic.AddUint32(&x, ...) etc.) ----
+
+func (s *Sched) cellAt(addr uintptr) *atomicCell {
+	if s.acells == nil {
+		s.acells = map[uintptr]*atomicCell{}
+	}
+	c := s.acells[addr]
+	if c == nil {
+		c = &atomicCell{gen: gen}
+		s.acells[addr] = c
+	}
+	return c
+}
+
+// AtomicAt makes the calling thread perform a modelled atomic operation on the variable at addr
+// (a scheduling point that joins the clocks of all earlier atomic operations on the same variable).
+func AtomicAt(addr uintptr, desc string) {
+	s := S
+	if s == nil || s.poison {
+		return
+	}
+	s.cellAt(addr).op(desc)
+}
